@@ -27,7 +27,13 @@ type World struct {
 	obs  []string
 	Data map[string]interface{}
 	kids []*vsync.Thread
+	hh   uint64
 }
+
+// Touch declares that the running thread reads or writes harness state shared between threads in the
+// current atomic segment (between two schedule points).  The order of touches is part of the state
+// fingerprint, so executions that order such segments differently are never merged.
+func (w *World) Touch() { vsync.Touch(&w.hh) }
 
 // Go starts a harness thread.
 func (w *World) Go(name string, f func()) *vsync.Thread {
@@ -38,11 +44,13 @@ func (w *World) Go(name string, f func()) *vsync.Thread {
 
 // Obs appends an observation to the outcome signature of this execution.
 func (w *World) Obs(format string, a ...interface{}) {
+	w.Touch()
 	w.obs = append(w.obs, fmt.Sprintf(format, a...))
 }
 
 // Failf raises an oracle failure and ends the execution.
 func (w *World) Failf(format string, a ...interface{}) {
+	w.Touch()
 	w.S.Fail(fmt.Sprintf(format, a...))
 }
 
@@ -93,19 +101,30 @@ type Scenario struct {
 	// MaxPB / MaxDev are the preemption and deviation bounds for (quick, thorough).
 	PB  [2]int
 	Dev [2]int
+	// FB bounds, per tier, the number of non-default FREE choices (which thread continues when the running
+	// one blocks or ends, which ready select case fires); 0 = unbounded.  Needed for programs with many
+	// library threads, whose number of non-preemptive schedules alone is exponential.
+	FB [2]int
 	// Sig reduces a failure message to a stable signature component (default: first line, digits kept).
 	Sig func(msg string) string
 	// AllowParkedLib lets library threads stay parked at the end without it being a deadlock.
 	AllowParkedLib bool
+	// NoStateCache switches the happens-before fingerprint pruning off.
+	NoStateCache bool
 }
 
 func runOnce(sc *Scenario, prefix []int, keepLog bool) (*World, *Exec) {
+	return runOnceV(sc, prefix, keepLog, nil)
+}
+
+func runOnceV(sc *Scenario, prefix []int, keepLog bool, visit func(s *vsync.Sched, key uint64) bool) (*World, *Exec) {
 	h := sc.Horizon
 	if h == 0 {
 		h = 2000
 	}
 	s := vsync.NewSched(prefix, h)
 	s.KeepLog = keepLog
+	s.Visit = visit
 	w := &World{S: s, Data: map[string]interface{}{}}
 	if sc.Invariant != nil {
 		s.Invariant = func() error { return sc.Invariant(w) }
@@ -138,6 +157,9 @@ func runOnce(sc *Scenario, prefix []int, keepLog bool) (*World, *Exec) {
 }
 
 func judge(sc *Scenario, w *World, x *Exec) error {
+	if x.Status == vsync.Pruned {
+		return nil // an equivalent continuation was (or is being) explored from the first visit of this state
+	}
 	if sc.Final != nil {
 		return sc.Final(w, x)
 	}
@@ -180,16 +202,19 @@ type Result struct {
 	DevDone     int
 	Exhaustive  bool
 	HorizonHits int64
+	Pruned      int64
+	StatesSeen  int64
 	Violation   *ev.Violation
 	Nondet      string
 	Sample      *Exec
 }
 
-type budget struct{ pb, dev int }
+type budget struct{ pb, dev, fb int }
 
 type explorer struct {
 	sc       *Scenario
 	res      *Result
+	visited  map[uint64]budget // state fingerprint -> best remaining budget it was explored with
 	bud      budget
 	deadline time.Time
 	stop     bool
@@ -214,7 +239,7 @@ func cost(points []vsync.Point, choices []int) (pb, dev int) {
 	return
 }
 
-func (e *explorer) explore(prefix []int, spentPB, spentDev int) {
+func (e *explorer) explore(prefix []int, spentPB, spentDev, spentFB int) {
 	if e.stop {
 		return
 	}
@@ -222,8 +247,45 @@ func (e *explorer) explore(prefix []int, spentPB, spentDev int) {
 		e.stop = true
 		return
 	}
-	w, x := runOnce(e.sc, prefix, false)
+	var visit func(s *vsync.Sched, key uint64) bool
+	if e.visited != nil {
+		visit = func(s *vsync.Sched, key uint64) bool {
+			pb, dev, fb := 0, 0, 0
+			for _, p := range s.Points {
+				if p.Chosen == 0 {
+					continue
+				}
+				if p.Data {
+					if !p.Free {
+						dev++
+					} else {
+						fb++
+					}
+				} else if p.Preempt {
+					pb++
+				} else {
+					fb++
+				}
+			}
+			rem := budget{e.bud.pb - pb, e.bud.dev - dev, e.bud.fb - fb}
+			if old, ok := e.visited[key]; ok {
+				if old.pb >= rem.pb && old.dev >= rem.dev && old.fb >= rem.fb {
+					return true
+				}
+				if rem.pb >= old.pb && rem.dev >= old.dev && rem.fb >= old.fb {
+					e.visited[key] = rem
+				}
+				return false
+			}
+			e.visited[key] = rem
+			return false
+		}
+	}
+	w, x := runOnceV(e.sc, prefix, false, visit)
 	e.res.Execs++
+	if x.Status == vsync.Pruned {
+		e.res.Pruned++
+	}
 	e.res.Steps += int64(x.Steps)
 	e.res.PointsSeen += int64(len(x.Points))
 	if x.Blocked {
@@ -237,15 +299,17 @@ func (e *explorer) explore(prefix []int, spentPB, spentDev int) {
 	if x.Status == vsync.Horizon {
 		e.res.HorizonHits++
 	}
-	hh := fnv.New64a()
-	hh.Write([]byte(x.Status.String()))
-	for _, o := range x.Obs {
-		hh.Write([]byte(o))
-		hh.Write([]byte{0})
-	}
-	e.res.Outcomes[hh.Sum64()] = true
-	if e.res.Sample == nil {
-		e.res.Sample = x
+	if x.Status != vsync.Pruned {
+		hh := fnv.New64a()
+		hh.Write([]byte(x.Status.String()))
+		for _, o := range x.Obs {
+			hh.Write([]byte(o))
+			hh.Write([]byte{0})
+		}
+		e.res.Outcomes[hh.Sum64()] = true
+		if e.res.Sample == nil {
+			e.res.Sample = x
+		}
 	}
 	if err := judge(e.sc, w, x); err != nil {
 		e.vio = x
@@ -255,22 +319,26 @@ func (e *explorer) explore(prefix []int, spentPB, spentDev int) {
 	}
 	for i := len(prefix); i < len(x.Points); i++ {
 		p := x.Points[i]
-		var dpb, ddev int
+		var dpb, ddev, dfb int
 		if p.Data {
 			if !p.Free {
 				ddev = 1
+			} else {
+				dfb = 1
 			}
 		} else if p.Preempt {
 			dpb = 1
+		} else {
+			dfb = 1
 		}
-		if spentPB+dpb > e.bud.pb || spentDev+ddev > e.bud.dev {
+		if spentPB+dpb > e.bud.pb || spentDev+ddev > e.bud.dev || spentFB+dfb > e.bud.fb {
 			continue
 		}
 		for alt := 1; alt < p.N; alt++ {
 			np := make([]int, i+1)
 			copy(np, x.Choices[:i])
 			np[i] = alt
-			e.explore(np, spentPB+dpb, spentDev+ddev)
+			e.explore(np, spentPB+dpb, spentDev+ddev, spentFB+dfb)
 			if e.stop {
 				return
 			}
@@ -288,9 +356,17 @@ func Explore(sc *Scenario, tierIdx int, deadline time.Time) *Result {
 	maxPB, maxDev := sc.PB[tierIdx], sc.Dev[tierIdx]
 	// bounds are raised together: (0,0) (1,min(1,maxDev)) (2,min(2,maxDev)) ...
 	for b := 0; b <= maxPB || b <= maxDev; b++ {
-		bud := budget{pb: min(b, maxPB), dev: min(b, maxDev)}
+		fb := sc.FB[tierIdx]
+		if fb == 0 {
+			fb = 1 << 30
+		}
+		bud := budget{pb: min(b, maxPB), dev: min(b, maxDev), fb: fb}
 		e := &explorer{sc: sc, res: res, bud: bud, deadline: deadline}
-		e.explore(nil, 0, 0)
+		if !sc.NoStateCache && os.Getenv("VERIF_NOCACHE") == "" {
+			e.visited = map[uint64]budget{}
+		}
+		e.explore(nil, 0, 0, 0)
+		res.StatesSeen = int64(len(e.visited))
 		if e.vio != nil {
 			res.Violation = confirm(sc, e.vio, e.vioMsg)
 			if res.Violation != nil {
@@ -332,6 +408,10 @@ func confirm(sc *Scenario, x *Exec, msg string) *ev.Violation {
 		Replay:    map[string]interface{}{"scenario": sc.Name, "choices": x.Choices, "trace": log, "observations": x.Obs},
 	}
 }
+
+// Warm runs one default-schedule execution of sc and discards the result (used to fill process-wide
+// caches of the code under test so that every explored execution takes the same path).
+func Warm(sc *Scenario) { runOnce(sc, nil, false) }
 
 // Replay re-runs a recorded choice sequence and prints what happens.
 func Replay(scs []*Scenario, v ev.Violation) int {
@@ -384,11 +464,35 @@ func RunScenarios(r *ev.Run, scs []*Scenario, perScenario time.Duration) (nondet
 		}
 		t0 := time.Now()
 		res := Explore(sc, ti, dl)
+		if os.Getenv("VERIF_CROSSCHECK") != "" && res.Violation == nil && res.Exhaustive && !sc.NoStateCache {
+			// soundness cross-check of the state cache: the set of complete outcomes must not change
+			sc2 := *sc
+			sc2.NoStateCache = true
+			res2 := Explore(&sc2, ti, time.Now().Add(10*time.Minute))
+			same := len(res.Outcomes) == len(res2.Outcomes)
+			for k := range res2.Outcomes {
+				if !res.Outcomes[k] {
+					same = false
+				}
+			}
+			if res2.Exhaustive && !same {
+				fmt.Printf("CROSSCHECK-MISMATCH %s: %d outcomes with the state cache, %d without\n", sc.Name, len(res.Outcomes), len(res2.Outcomes))
+				nondet = sc.Name + ": state cache changes the outcome set"
+			} else {
+				fmt.Printf("CROSSCHECK-OK %s: %d outcomes, %d executions with cache, %d without\n", sc.Name, len(res.Outcomes), res.Execs, res2.Execs)
+			}
+		}
 		p := ev.Part{Name: sc.Name, Evaluations: res.Execs, States: res.PointsSeen, Transitions: res.Steps, Outcomes: int64(len(res.Outcomes)),
 			Exhaustive: res.Exhaustive, Blocked: res.Blocked, WallS: time.Since(t0).Seconds(),
 			Bound: fmt.Sprintf("preemptions<=%d deviations<=%d completed (asked %d/%d)", res.PBDone, res.DevDone, sc.PB[ti], sc.Dev[ti])}
+		if sc.FB[ti] > 0 {
+			p.Bound += fmt.Sprintf(", free choices<=%d", sc.FB[ti])
+		}
 		if res.HorizonHits > 0 {
 			p.Note = fmt.Sprintf("%d executions hit the step horizon", res.HorizonHits)
+		}
+		if !sc.NoStateCache {
+			p.Note += fmt.Sprintf(" reduction: happens-before-fingerprint state cache, %d distinct states at the last bound, %d executions cut short at an already explored state", res.StatesSeen, res.Pruned)
 		}
 		if res.Nondet != "" {
 			p.Note += " NONDETERMINISM: " + res.Nondet
